@@ -911,3 +911,102 @@ W["make_same_length"] = dict(
     ]},
     ensures=_MSL_ENS,
 )
+
+# ------------------------------------------------------------------ combinatorics.py: compute_jth_permutation_prefix (C13) — composition of two proved contracts
+W["compute_jth_permutation_prefix"] = dict(
+    id="compute_jth_permutation_prefix", target="sweetpea._internal.combinatorics:compute_jth_permutation_prefix", prop=["C13"],
+    params={"n": "int", "m": "int", "j": "int"},
+    uses={"compute_jth_inversion_sequence": dict(params={"n": "int", "m": "int", "j": "int"}, requires=["0 <= m", "m <= n", "j >= 0"], returns="list[int]",
+                                                 ensures=["len(result) == m", "forall(t, 0, m, 0 <= result[t] and result[t] < n - t)"]),
+          "construct_permutation": dict(params={"inversion_sequence": "list[int]", "orig_n": "int"},
+                                        requires=["orig_n >= 0", "len(inversion_sequence) <= orig_n",
+                                                  "forall(t, 0, len(inversion_sequence), 0 <= inversion_sequence[t] and inversion_sequence[t] < orig_n - t)"],
+                                        returns="list[int]",
+                                        ensures=["len(result) == len(inversion_sequence)", "forall(t, 0, len(result), 0 <= result[t] and result[t] < orig_n)",
+                                                 "forall(s, 0, len(result), forall(t, 0, len(result), implies(s != t, result[s] != result[t])))"])},
+    requires=["0 <= m", "m <= n", "j >= 0"],
+    ensures=["len(result) == m", "forall(t, 0, m, 0 <= result[t] and result[t] < n)",
+             "forall(s, 0, m, forall(t, 0, m, implies(s != t, result[s] != result[t])))"],
+    native=dict(call=lambda f, n, m, j: f(n, m, j),
+                domain=lambda: ({"n": n, "m": m, "j": j} for n in range(0, 6) for m in range(0, n + 1) for j in range(0, _math.factorial(n) // _math.factorial(n - m))),
+                ghost_post=lambda res, n, m, j: {}),
+    assumptions=["callee contracts are the proved contracts of compute_jth_inversion_sequence (its range clauses) and construct_permutation"],
+)
+
+# ------------------------------------------------------------------ main.py: _experiments_to_tuples (C20)
+# experiments: a list of dicts {factor name: list of level names} (each dict an opaque object with accessor functions); the result is, per experiment, the
+# list of trials as tuples in the order of `keys`: result[e][t][j] == experiments[e][keys[j]][t], as many trials as the shortest selected column.
+def _ett_domain():
+    import itertools as it
+    for ncols in (0, 1, 2, 3):
+        for T in (0, 1, 3):
+            for nexp in (0, 1, 2):
+                names = ["a", "b", "c"][:ncols]
+                exps = [{n: [f"{n}{e}{t}" for t in range(T + (1 if (n == "b" and e == 0) else 0))] for n in ["a", "b", "c"]} for e in range(nexp)]
+                yield dict(experiments=exps, keys=names)
+
+
+def _ett_check(res, experiments, keys):
+    want = [list(zip(*[e[k] for k in keys])) for e in experiments]
+    ok = len(res) == len(experiments) and all(list(map(tuple, r)) == w for r, w in zip(res, want))
+    for e, r in zip(experiments, res):
+        for t, row in enumerate(r):
+            for j, k in enumerate(keys):
+                ok = ok and row[j] == e[k][t]
+    return None if ok else f"tuples {res!r} for experiments {experiments!r} / keys {keys}"
+
+
+W["experiments_to_tuples"] = dict(
+    id="experiments_to_tuples", target="sweetpea._internal.main:_experiments_to_tuples", prop=["C20"],
+    params={"experiments": "list[obj]", "keys": "list[obj]"},
+    boxed_dicts=True, local_types={"tuple_lists": "list[list[obj]]"},
+    requires=["forall(e, 0, len(experiments), forall(j, 0, len(keys), keys[j] in experiments[e]))"] if False else [],
+    loops={0: dict(index="ei", invariant=[
+        "len(tuple_lists) == ei",
+        "forall(e, 0, ei, forall(j, 0, len(keys), len(tuple_lists[e]) <= len(experiments[e][keys[j]])))",
+        "forall(e, 0, ei, implies(len(keys) > 0, exists(j, 0, len(keys), len(tuple_lists[e]) == len(experiments[e][keys[j]]))))",
+        "forall(e, 0, ei, implies(len(keys) == 0, len(tuple_lists[e]) == 0))",
+        "forall(e, 0, ei, forall(t, 0, len(tuple_lists[e]), forall(j, 0, len(keys), tuple_lists[e][t][j] == experiments[e][keys[j]][t])))"])},
+    ensures=["len(result) == len(experiments)",
+             "forall(e, 0, len(result), forall(j, 0, len(keys), len(result[e]) <= len(experiments[e][keys[j]])))",
+             "forall(e, 0, len(result), implies(len(keys) > 0, exists(j, 0, len(keys), len(result[e]) == len(experiments[e][keys[j]]))))",
+             "forall(e, 0, len(result), forall(t, 0, len(result[e]), forall(j, 0, len(keys), result[e][t][j] == experiments[e][keys[j]][t])))"],
+    native=dict(call=lambda f, experiments, keys: f(experiments, keys), domain=_ett_domain, check=_ett_check, skip_requires=True, skip_ensures=True),
+    assumptions=["builtin contract of zip(*rows): min(len(row)) tuples, tuple t holds rows[j][t] at position j (DESIGN 3.4); dict lookups by key are total here "
+                 "(a missing key raises KeyError in the real function: the safety obligation `dict key present` is discharged from the precondition when given, "
+                 "otherwise reported)"],
+)
+W["experiments_to_tuples"]["requires"] = ["forall(e, 0, len(experiments), forall(j, 0, len(keys), keys[j] in experiments[e]))"]
+
+
+def _etd_check(res, experiments, keys):
+    ok = len(res) == len(experiments)
+    for e, r in zip(experiments, res):
+        T = min((len(e[k]) for k in keys), default=0)
+        ok = ok and len(r) == T
+        for t, row in enumerate(r):
+            ok = ok and isinstance(row, dict) and list(row) == list(dict.fromkeys(keys)) and all(row[k] == e[k][t] for k in keys)
+    return None if ok else f"dicts {res!r} for experiments {experiments!r} / keys {keys}"
+
+
+W["experiments_to_dicts"] = dict(
+    id="experiments_to_dicts", target="sweetpea._internal.main:_experiments_to_dicts", prop=["C20"],
+    params={"experiments": "list[obj]", "keys": "list[obj]"},
+    boxed_dicts=True, local_types={"tuple_lists": "list[list[obj]]"},
+    requires=["forall(e, 0, len(experiments), forall(j, 0, len(keys), keys[j] in experiments[e]))"],
+    loops={0: dict(index="ei", invariant=[
+        "len(tuple_lists) == ei",
+        "forall(e, 0, ei, forall(j, 0, len(keys), len(tuple_lists[e]) <= len(experiments[e][keys[j]])))",
+        "forall(e, 0, ei, implies(len(keys) > 0, exists(j, 0, len(keys), len(tuple_lists[e]) == len(experiments[e][keys[j]]))))",
+        "forall(e, 0, ei, implies(len(keys) == 0, len(tuple_lists[e]) == 0))",
+        "forall(e, 0, ei, forall(t, 0, len(tuple_lists[e]), forall(j, 0, len(keys), haskey(tuple_lists[e][t], keys[j]) and dictval(tuple_lists[e][t], keys[j]) == experiments[e][keys[j]][t])))",
+        "forall(e, 0, ei, forall(t, 0, len(tuple_lists[e]), forallo(k, implies(haskey(tuple_lists[e][t], k), k in keys))))"])},
+    ensures=["len(result) == len(experiments)",
+             "forall(e, 0, len(result), forall(j, 0, len(keys), len(result[e]) <= len(experiments[e][keys[j]])))",
+             "forall(e, 0, len(result), implies(len(keys) > 0, exists(j, 0, len(keys), len(result[e]) == len(experiments[e][keys[j]]))))",
+             "forall(e, 0, len(result), forall(t, 0, len(result[e]), forall(j, 0, len(keys), haskey(result[e][t], keys[j]) and dictval(result[e][t], keys[j]) == experiments[e][keys[j]][t])))",
+             "forall(e, 0, len(result), forall(t, 0, len(result[e]), forallo(k, implies(haskey(result[e][t], k), k in keys))))"],
+    native=dict(call=lambda f, experiments, keys: f(experiments, keys), domain=_ett_domain, check=_etd_check, skip_requires=True, skip_ensures=True),
+    assumptions=["builtin contracts of zip(*rows) and dict(zip(keys, tuple)) (DESIGN 3.4): the dict has exactly the given keys and the value under keys[j] is the tuple's "
+                 "entry at some position j2 >= j holding the same key (the last one)"],
+)
